@@ -280,29 +280,7 @@ func C13(c *core.Ctx) {
 				}
 			}
 			c.Check("R3", "write-far", w.Pos(), farOK, "the packet is encapsulated with the FAR fetched for (SEID, FAR id) of this update")
-			// the QER does not leak from one PDR to the next
-			leak := false
-			outer := loopHeaderOfRange(fn, "PDRIDs")
-			seen := map[ssa.Value]bool{}
-			var walk func(v ssa.Value, d int)
-			walk = func(v ssa.Value, d int) {
-				if v == nil || seen[v] || d > 20 {
-					return
-				}
-				seen[v] = true
-				if ph, ok := v.(*ssa.Phi); ok {
-					for _, h := range outer {
-						if ph.Block() == h {
-							leak = true
-						}
-					}
-					for _, e := range ph.Edges {
-						walk(e, d+1)
-					}
-				}
-			}
-			walk(args[1], 0)
-			c.Check("R3", "qer-per-pdr", w.Pos(), !leak && len(outer) > 0, "the QER (QFI) used for a PDR's packets is selected within that PDR's iteration and not carried over from the previous PDR")
+			qerPerPDR(c, "R3", fn, w)
 		}
 		// no re-queue
 		core.Instrs(fn, func(in ssa.Instruction) {
@@ -431,4 +409,32 @@ func isOkOrPhiOf(cond, v ssa.Value) bool {
 		return true
 	}
 	return false
+}
+
+// qerPerPDR: the QER handed to WritePacket is selected within the iteration of the PDR whose packets are
+// written; it is not carried over from the previous PDR of the FAR.
+func qerPerPDR(c *core.Ctx, rule string, fn *ssa.Function, w ssa.CallInstruction) {
+	args := core.CallArgs(w)
+	leak := false
+	outer := loopHeaderOfRange(fn, "PDRIDs")
+	seen := map[ssa.Value]bool{}
+	var walk func(v ssa.Value, d int)
+	walk = func(v ssa.Value, d int) {
+		if v == nil || seen[v] || d > 20 {
+			return
+		}
+		seen[v] = true
+		if ph, ok := v.(*ssa.Phi); ok {
+			for _, h := range outer {
+				if ph.Block() == h {
+					leak = true
+				}
+			}
+			for _, e := range ph.Edges {
+				walk(e, d+1)
+			}
+		}
+	}
+	walk(args[1], 0)
+	c.Check(rule, "qer-per-pdr", w.Pos(), !leak && len(outer) > 0, "the QER (QFI) used for a PDR's packets is selected within that PDR's iteration and not carried over from the previous PDR")
 }
